@@ -17,6 +17,10 @@ CHECKS = {
                 technique="TLA+ MemIdm spec: TLC exhaustive graph with invariants + edge replay on real MemIdm; TLC model of the two-critical-section AddUser (MemIdmConc: map invariant + linearizability over all interleavings); recorded concurrent executions judged by TLC (IdmLin)",
                 text="MemIdm.tla is shaped like the code (two map pairs, two counters, AddUser in two critical sections). TLC explores the complete reachable graph for a pool of 3 group and 3 user names with up to 3 (quick) / 4 (thorough) ids issued per kind, checking map agreement, id uniqueness, ids-never-reissued and admin-from-start, and emits every transition with the expected result and the complete lookup table; each is replayed on a real MemIdm and compared (all four lookups for every pool name and every id that can have been issued). Non-conforming steps are judged by TLC trace validation (IdmTrace). Concurrency: TLC checks MemIdmConc (2 and 3 processes, all call pairs/triples, three seeded initial states) for the map invariant in every interleaving and linearizability at termination; tens of thousands of free-running real executions with 2-4 goroutines are recorded and each distinct history is judged linearizable or not by TLC (IdmLin).",
                 note="Trusted: TLC; the four lookups as the projection of the manager. The real concurrent executions are free running (schedules sampled by the Go scheduler, not enumerated)."),
+    "C16": dict(cat="model_checking", design="DESIGN.md section 8 C16",
+                technique="TLA+ Copy spec: reference algorithm checked against the contract by TLC for every size class and single-fault plan; TLC enumerates the plans; real runs through FailFS wrappers are recorded (sequence of consulted primitives + final observation) and judged by TLC (CopyJudge evaluates Copy!Contract on every run)",
+                text="Copy.tla states the contract over a recorded run (nil error => destination bytes, permission bits and digest are the source's; any injected failure other than closing the source => non-nil error) and a reference algorithm as a step sequence over the primitives. TLC checks the reference against the contract for 3 functions x 6 size classes around the 32 KiB buffer x every plan 'k-th invocation of primitive F on side S fails' (177 cases, exhaustive) and emits them; the driver executes each case against the real code on 5 (quick) / 9 (thorough) pairs of file systems (MemFS, OrefaFS, OsFS) with counting FailFS wrappers on both sides, reads bytes and mode back from the base file systems, recomputes SHA-256, and TLC judges every recorded run against the contract. The order of consulted primitives is also compared with the reference model (fidelity report, not a verdict).",
+                note="Trusted: FailFS's consult-then-forward (C12 checks it), SHA-256, TLC. One fault per run."),
 }
 
 
